@@ -1,5 +1,6 @@
 import Enc.Lemmas.Proto
 import Enc.Spec.Protobuf
+import Enc.Lemmas.ProtoVarint
 /-!
 # C12 — proto bytes are standard protobuf wire format, both ways
 Property theorems only.
@@ -22,5 +23,19 @@ theorem tag_layout (n : Nat) (w : Wire) (h : n < 2 ^ 29) :
   have : n * 8 + w.num < 2 ^ 64 := by omega
   simp only [tagWord, BitVec.toNat_ofNat, Nat.mod_eq_of_lt this]
   refine ⟨trivial, ?_, ?_⟩ <;> omega
+
+/-- every varint the encoder writes (tags, lengths, values) is the canonical base-128 varint of the specification -/
+theorem varint_is_leb128 (v : BitVec 64) : encodeVarint v = Spec.Protobuf.leb128 v.toNat :=
+  Lemmas.ProtoVarint.encodeVarint_eq_leb128 v
+
+/-- sint32/sint64 fields: the zig-zag image written is the specification's, for every int64 -/
+theorem zigzag_is_spec (i : Int) (h1 : -(2:Int)^63 ≤ i) (h2 : i < (2:Int)^63) :
+    (encodeZigZag64 (BitVec.ofInt 64 i)).toNat = Spec.Protobuf.zigzag i :=
+  Lemmas.ProtoVarint.zigzag_spec i h1 h2
+
+/-- the decoder reads back every varint the encoder writes, whatever follows it -/
+theorem varint_roundtrip (v : BitVec 64) (rest : Bytes) :
+    decodeVarint (encodeVarint v ++ rest) = .ok (v, sizeOfVarint v) :=
+  Lemmas.ProtoVarint.decode_encode_varint v rest
 
 end Enc.Props.C12
